@@ -214,6 +214,7 @@ type ClientConn struct {
 	cond            *sync.Cond // hold mu; broadcast on flow/closed changes
 	flow            outflow    // our conn-level flow control quota (cs.outflow is per stream)
 	inflow          inflow     // peer's conn-level flow control
+	streamInflow    int32      // initial receive window of a stream: the SETTINGS_INITIAL_WINDOW_SIZE we advertised
 	doNotReuse      bool       // whether conn is marked to not be reused for any future requests
 	closing         bool
 	closed          bool
@@ -716,6 +717,7 @@ func (t *Transport) newClientConn(c net.Conn, singleUse bool) (*ClientConn, erro
 		streams:               make(map[uint32]*clientStream),
 		singleUse:             singleUse,
 		wantSettingsAck:       true,
+		streamInflow:          transportDefaultStreamFlow,
 		pings:                 make(map[[8]byte]chan struct{}),
 		reqHeaderMu:           make(chan struct{}, 1),
 	}
@@ -736,6 +738,8 @@ func (t *Transport) newClientConn(c net.Conn, singleUse bool) (*ClientConn, erro
 			t.MaxHeaderListSize = setting.Val
 		case http2.SettingHeaderTableSize:
 			headerTableSize = setting.Val
+		case http2.SettingInitialWindowSize:
+			cc.streamInflow = int32(setting.Val)
 		}
 	}
 
@@ -2222,7 +2226,7 @@ type resAndError struct {
 func (cc *ClientConn) addStreamLocked(cs *clientStream) {
 	cs.flow.add(int32(cc.initialWindowSize))
 	cs.flow.setConnFlow(&cc.flow)
-	cs.inflow.init(transportDefaultStreamFlow)
+	cs.inflow.init(cc.streamInflow)
 	cs.ID = cc.nextStreamID
 	cc.nextStreamID += 2
 	cc.streams[cs.ID] = cs
